@@ -72,6 +72,7 @@ def build(u):
     u.spec("messages_ctor.rs", shared=True)
     u.spec("fee_spec.rs", shared=True)
     u.spec("iface.rs", shared=True)
+    u.spec("iface_provider.rs", shared=True)
     u.spec("paystate_shared.rs", shared=True)
     u.spec("lifecycle.rs")
     messages_mod(u, m)
